@@ -64,6 +64,9 @@ Inductive qcase :=
 | KNorm (qx qy qz qs th2 lam tol : Q)
 (* ub_matrix_from_u_and_b *)
 | KUB (u b : min) (o : list Q) (osc : Q) (odm : dims) (tol : Q)
+(* ub_matrix_from_u_and_b refused the operands with error class cls.  The product of two 3x3 matrices exists whatever B
+   is; the reason carries the sign of det(B) - the handedness of the reciprocal basis - computed exactly *)
+| KUBErr (u b : min) (cls : string)
 (* hkl_vec_from_Q_vec(Q, UB = U*B by the kernel, R): returned vector; tolerance = c * kappa_inf(R U B) * 2^-53 *)
 | KHkl (q : vin) (u b r : min) (o : outcome) (c : Q)
 (* the same for a refused / non-finite outcome of a singular matrix *)
@@ -134,6 +137,12 @@ Definition check (c : qcase) : string :=
             then "" else "value"
       | VErr _ e => "model-raises-" ++ e
       | _ => "shape"
+      end
+  | KUBErr u b cls =>
+      match ub_matrix_from_u_and_b O (mq u) (mq b) with
+      | VErr _ _ => ""
+      | _ => let d := m9det (entries b) in
+             "impl-raises-" ++ cls ++ (if Qle_bool d 0 then (if Qle_bool 0 d then "-detB=0" else "-detB<0") else "-detB>0")
       end
   | KHkl q u b r o c =>
       let ub := ub_matrix_from_u_and_b O (mq u) (mq b) in
